@@ -826,6 +826,70 @@ func lemmaTokRoundTripQuery(c *queryCodec, msg *Query, version primitive.Protoco
 //@   ensures now: result1 == nil ==> (unbox(result0, *Query).Options.NowInSeconds == nil) == (msg.Options.NowInSeconds == nil) && (msg.Options.NowInSeconds != nil ==> *unbox(result0, *Query).Options.NowInSeconds == *msg.Options.NowInSeconds)
 //@   ensures accepted: result2 ==> result1 == nil
 
+func lemmaLenEventSchemaChange(c *eventCodec, msg *SchemaChangeEvent, version primitive.ProtocolVersion) bool {
+	buf := &bytes.Buffer{}
+	if e2 := c.Encode(msg, buf, version); e2 != nil {
+		return true
+	}
+	n, e1 := c.EncodedLength(msg, version)
+	return e1 != nil || buf.Len() == n
+}
+
+//@ func lemmaLenEventSchemaChange
+//@   prop C03
+//@   ensures agree: result
+
+func lemmaLenEventStatusChange(c *eventCodec, msg *StatusChangeEvent, version primitive.ProtocolVersion) bool {
+	buf := &bytes.Buffer{}
+	if e2 := c.Encode(msg, buf, version); e2 != nil {
+		return true
+	}
+	n, e1 := c.EncodedLength(msg, version)
+	return e1 != nil || buf.Len() == n
+}
+
+//@ func lemmaLenEventStatusChange
+//@   prop C03
+//@   ensures agree: result
+
+func lemmaLenEventTopologyChange(c *eventCodec, msg *TopologyChangeEvent, version primitive.ProtocolVersion) bool {
+	buf := &bytes.Buffer{}
+	if e2 := c.Encode(msg, buf, version); e2 != nil {
+		return true
+	}
+	n, e1 := c.EncodedLength(msg, version)
+	return e1 != nil || buf.Len() == n
+}
+
+//@ func lemmaLenEventTopologyChange
+//@   prop C03
+//@   ensures agree: result
+
+// ---- C01, token view: RESULT Rows metadata without column specifications round-trips field by field ----------------
+// (paging state, new metadata id and continuous page number may all be present together: the decoder has to read them
+// in the order the encoder writes them)
+func lemmaTokRoundTripRowsMetadata(metadata *RowsMetadata, version primitive.ProtocolVersion) (*RowsMetadata, error, bool) {
+	buf := &bytes.Buffer{}
+	if err := encodeRowsMetadata(metadata, buf, version); err != nil {
+		return nil, err, false
+	}
+	decoded, err := decodeRowsMetadata(buf, version)
+	return decoded, err, true
+}
+
+//@ func lemmaTokRoundTripRowsMetadata
+//@   prop C01
+//@   tokens
+//@   expand message.encodeRowsMetadata, message.decodeRowsMetadata
+//@   requires nocols: len(metadata.Columns) == 0 && metadata.ColumnCount >= 0
+//@   requires fits: len(metadata.PagingState) <= 2147483647 && len(metadata.NewResultMetadataId) <= 65535
+//@   ensures count: result1 == nil ==> result0 != nil && result0.ColumnCount == metadata.ColumnCount
+//@   ensures pagingstate: result1 == nil ==> isnil(result0.PagingState) == isnil(metadata.PagingState) && len(result0.PagingState) == len(metadata.PagingState) && same(win(result0.PagingState), win(metadata.PagingState))
+//@   ensures newid: result1 == nil ==> len(result0.NewResultMetadataId) == len(metadata.NewResultMetadataId) && same(win(result0.NewResultMetadataId), win(metadata.NewResultMetadataId))
+//@   ensures pageno: result1 == nil && metadata.ContinuousPageNumber > 0 ==> result0.ContinuousPageNumber == metadata.ContinuousPageNumber && result0.LastContinuousPage == metadata.LastContinuousPage
+//@   ensures accepted: result2 ==> result1 == nil
+//@   cover roundtrip: result2 && result1 == nil
+
 // >>> generated by /verif/tools/gen_roundtrip.py
 // (do not edit by hand; the table of messages and fields is in the generator)
 
@@ -1348,6 +1412,69 @@ func lemmaTokRoundTripExecute(c *executeCodec, msg *Execute, version primitive.P
 //@   ensures accepted: result2 ==> result1 == nil
 //@   cover roundtrip: result2 && result1 == nil
 
+func lemmaTokRoundTripSchemaChangeEvent(c *eventCodec, msg *SchemaChangeEvent, version primitive.ProtocolVersion) (Message, error, bool) {
+	buf := &bytes.Buffer{}
+	if err := c.Encode(msg, buf, version); err != nil {
+		return nil, err, false
+	}
+	decoded, err := c.Decode(buf, version)
+	return decoded, err, true
+}
+
+//@ func lemmaTokRoundTripSchemaChangeEvent
+//@   prop C01
+//@   tokens
+//@   expand (*message.eventCodec).Encode, (*message.eventCodec).Decode
+//@   requires fitsChangeType: len(msg.ChangeType) <= 65535
+//@   requires fitsTarget: len(msg.Target) <= 65535
+//@   requires fitsKeyspace: len(msg.Keyspace) <= 65535
+//@   requires fitsObject: len(msg.Object) <= 65535
+//@   requires fitsArguments: len(msg.Arguments) <= 65535
+//@   ensures kind: result1 == nil ==> typeis(result0, *SchemaChangeEvent) && !isnil(unbox(result0, *SchemaChangeEvent))
+//@   ensures ChangeType: result1 == nil ==> unbox(result0, *SchemaChangeEvent).ChangeType == msg.ChangeType
+//@   ensures Target: result1 == nil && version >= primitive.ProtocolVersion3 ==> unbox(result0, *SchemaChangeEvent).Target == msg.Target
+//@   ensures Keyspace: result1 == nil && version >= primitive.ProtocolVersion3 ==> unbox(result0, *SchemaChangeEvent).Keyspace == msg.Keyspace
+//@   ensures Object: result1 == nil && version >= primitive.ProtocolVersion3 && msg.Target != primitive.SchemaChangeTargetKeyspace ==> unbox(result0, *SchemaChangeEvent).Object == msg.Object
+//@   ensures Arguments: result1 == nil && version >= primitive.ProtocolVersion3 && (msg.Target == primitive.SchemaChangeTargetFunction || msg.Target == primitive.SchemaChangeTargetAggregate) ==> same(valof(unbox(result0, *SchemaChangeEvent).Arguments), valof(msg.Arguments))
+//@   ensures accepted: result2 ==> result1 == nil
+//@   cover roundtrip: result2 && result1 == nil
+
+func lemmaTokRoundTripStatusChangeEvent(c *eventCodec, msg *StatusChangeEvent, version primitive.ProtocolVersion) (Message, error, bool) {
+	buf := &bytes.Buffer{}
+	if err := c.Encode(msg, buf, version); err != nil {
+		return nil, err, false
+	}
+	decoded, err := c.Decode(buf, version)
+	return decoded, err, true
+}
+
+//@ func lemmaTokRoundTripStatusChangeEvent
+//@   prop C01
+//@   tokens
+//@   expand (*message.eventCodec).Encode, (*message.eventCodec).Decode
+//@   requires fitsChangeType: len(msg.ChangeType) <= 65535
+//@   ensures kind: result1 == nil ==> typeis(result0, *StatusChangeEvent) && !isnil(unbox(result0, *StatusChangeEvent))
+//@   ensures ChangeType: result1 == nil ==> unbox(result0, *StatusChangeEvent).ChangeType == msg.ChangeType
+//@   cover roundtrip: result2 && result1 == nil
+
+func lemmaTokRoundTripTopologyChangeEvent(c *eventCodec, msg *TopologyChangeEvent, version primitive.ProtocolVersion) (Message, error, bool) {
+	buf := &bytes.Buffer{}
+	if err := c.Encode(msg, buf, version); err != nil {
+		return nil, err, false
+	}
+	decoded, err := c.Decode(buf, version)
+	return decoded, err, true
+}
+
+//@ func lemmaTokRoundTripTopologyChangeEvent
+//@   prop C01
+//@   tokens
+//@   expand (*message.eventCodec).Encode, (*message.eventCodec).Decode
+//@   requires fitsChangeType: len(msg.ChangeType) <= 65535
+//@   ensures kind: result1 == nil ==> typeis(result0, *TopologyChangeEvent) && !isnil(unbox(result0, *TopologyChangeEvent))
+//@   ensures ChangeType: result1 == nil ==> unbox(result0, *TopologyChangeEvent).ChangeType == msg.ChangeType
+//@   cover roundtrip: result2 && result1 == nil
+
 // decoder half of the length agreement: what Decode consumes is what EncodedLength announces for the decoded message
 
 func lemmaDecodeLenAuthenticate(c *authenticateCodec, source io.Reader, version primitive.ProtocolVersion) (Message, int, error) {
@@ -1449,67 +1576,3 @@ func lemmaDecodeLenRevise(c *reviseCodec, source io.Reader, version primitive.Pr
 //@   ensures consumed: result2 == nil ==> pos(source) == old(pos(source)) + result1
 
 // <<< generated
-
-func lemmaLenEventSchemaChange(c *eventCodec, msg *SchemaChangeEvent, version primitive.ProtocolVersion) bool {
-	buf := &bytes.Buffer{}
-	if e2 := c.Encode(msg, buf, version); e2 != nil {
-		return true
-	}
-	n, e1 := c.EncodedLength(msg, version)
-	return e1 != nil || buf.Len() == n
-}
-
-//@ func lemmaLenEventSchemaChange
-//@   prop C03
-//@   ensures agree: result
-
-func lemmaLenEventStatusChange(c *eventCodec, msg *StatusChangeEvent, version primitive.ProtocolVersion) bool {
-	buf := &bytes.Buffer{}
-	if e2 := c.Encode(msg, buf, version); e2 != nil {
-		return true
-	}
-	n, e1 := c.EncodedLength(msg, version)
-	return e1 != nil || buf.Len() == n
-}
-
-//@ func lemmaLenEventStatusChange
-//@   prop C03
-//@   ensures agree: result
-
-func lemmaLenEventTopologyChange(c *eventCodec, msg *TopologyChangeEvent, version primitive.ProtocolVersion) bool {
-	buf := &bytes.Buffer{}
-	if e2 := c.Encode(msg, buf, version); e2 != nil {
-		return true
-	}
-	n, e1 := c.EncodedLength(msg, version)
-	return e1 != nil || buf.Len() == n
-}
-
-//@ func lemmaLenEventTopologyChange
-//@   prop C03
-//@   ensures agree: result
-
-// ---- C01, token view: RESULT Rows metadata without column specifications round-trips field by field ----------------
-// (paging state, new metadata id and continuous page number may all be present together: the decoder has to read them
-// in the order the encoder writes them)
-func lemmaTokRoundTripRowsMetadata(metadata *RowsMetadata, version primitive.ProtocolVersion) (*RowsMetadata, error, bool) {
-	buf := &bytes.Buffer{}
-	if err := encodeRowsMetadata(metadata, buf, version); err != nil {
-		return nil, err, false
-	}
-	decoded, err := decodeRowsMetadata(buf, version)
-	return decoded, err, true
-}
-
-//@ func lemmaTokRoundTripRowsMetadata
-//@   prop C01
-//@   tokens
-//@   expand message.encodeRowsMetadata, message.decodeRowsMetadata
-//@   requires nocols: len(metadata.Columns) == 0 && metadata.ColumnCount >= 0
-//@   requires fits: len(metadata.PagingState) <= 2147483647 && len(metadata.NewResultMetadataId) <= 65535
-//@   ensures count: result1 == nil ==> result0 != nil && result0.ColumnCount == metadata.ColumnCount
-//@   ensures pagingstate: result1 == nil ==> isnil(result0.PagingState) == isnil(metadata.PagingState) && len(result0.PagingState) == len(metadata.PagingState) && same(win(result0.PagingState), win(metadata.PagingState))
-//@   ensures newid: result1 == nil ==> len(result0.NewResultMetadataId) == len(metadata.NewResultMetadataId) && same(win(result0.NewResultMetadataId), win(metadata.NewResultMetadataId))
-//@   ensures pageno: result1 == nil && metadata.ContinuousPageNumber > 0 ==> result0.ContinuousPageNumber == metadata.ContinuousPageNumber && result0.LastContinuousPage == metadata.LastContinuousPage
-//@   ensures accepted: result2 ==> result1 == nil
-//@   cover roundtrip: result2 && result1 == nil
